@@ -99,7 +99,8 @@ def run(prop, tier, seed):
     nb = len(cases)
     for argv in bad_lines:
         cases.append(A(argv)); gid.append(-1)
-    for v in (" 1", "+1", "-1", "01", "1 ", "1e3", "0x10", "2147483647", "2147483648", "-2147483648", "-2147483649", "99999999999999999999", "\t2", "1\n"):
+    for v in (" 1", "+1", "-1", "01", "1 ", "1e3", "0x10", "2147483647", "2147483648", "-2147483648", "-2147483649", "99999999999999999999", "\t2", "1\n",
+              "08", "09", "010", "0x1", "0X1", "00", "007", "0b1", "0o7"):
         for argv in (["-p", v], ["--strip=" + v], ["-F", v], ["-p" + v]):
             cases.append(A(argv)); gid.append(-3)
     nenv = len(cases)
@@ -151,6 +152,21 @@ def run(prop, tier, seed):
             first.setdefault(gid[i], i)
         elif gid[i] == -1 and impl[i] != "THROW":
             bad.append((i, "a bad command line is accepted", dict(case=c, argv=dec_argv(c), impl=impl[i])))
+        elif gid[i] == -3:
+            # numbers are decimal numerals (blanks and a sign in front, nothing behind): 0x1 is no number, 08 and 010 are 8 and 10
+            argv_ = dec_argv(c)
+            v_ = argv_[1] if len(argv_) == 2 else (argv_[0].split("=", 1)[1] if "=" in argv_[0] else argv_[0][2:])
+            m_ = re.fullmatch(r"[ \t\n\v\f\r]*[+-]?[0-9]+", v_)
+            val_ = int(m_.group(0)) if m_ else None
+            if val_ is not None and not (-2 ** 31 <= val_ < 2 ** 31):
+                val_ = None
+            key_ = "F=" if argv_[0].startswith("-F") else "p="
+            if val_ is None and impl[i] != "THROW":
+                bad.append((i, "%r is not a decimal number and is accepted as one" % v_, dict(case=c, argv=argv_, impl=impl[i])))
+            elif val_ is not None and val_ >= 0:
+                got_ = re.search(r"\b%s(-?\d+)" % key_, impl[i])
+                if impl[i] == "THROW" or not got_ or int(got_.group(1)) != val_:
+                    bad.append((i, "the decimal number %r (= %d) is %s" % (v_, val_, "rejected" if impl[i] == "THROW" else "read as " + (got_.group(1) if got_ else "?")), dict(case=c, argv=argv_, impl=impl[i])))
     # whole program: exit status 2 and no file touched
     scns = []
     for argv in bad_lines:
